@@ -58,20 +58,27 @@ RelII == V(RLt(R(200), Nc), RLt(Nc, R(200)))
 InBand(j) == RLt(RMul(Q(1, 2), F0), Fq(j)) /\ RLt(Fq(j), RMul(R(2), F0))
 OnBandEdge(j) == Fq(j) = RMul(Q(1, 2), F0) \/ Fq(j) = RMul(R(2), F0)
 Thr3 == IF RLt(Q(1, 2), F0) THEN {R(2)} ELSE IF RLt(F0, Q(1, 2)) THEN {R(3)} ELSE {R(2), R(3)}
-RelIIIFor(t) ==
-    LET sure == { j \in 1..NFq : InBand(j) }
-        edge == { j \in 1..NFq : OnBandEdge(j) }
+\* The search range locates the peak.  Whether the criteria then look at the whole curve or only at the samples
+\* inside the range ("considering only frequencies between ...", what the code does) is not settled by the
+\* guideline: both readings are evaluated and a criterion on which they disagree is a tie.
+InRange(j) == (rng[1] = NoEnd \/ 2 * j >= rng[1]) /\ (rng[2] = NoEnd \/ 2 * j <= rng[2])
+Samp(m) == IF m = "full" THEN 1..NFq ELSE { j \in 1..NFq : InRange(j) }
+Readings == {"full", "trimmed"}
+RelIIIFor(t, m) ==
+    LET sure == { j \in Samp(m) : InBand(j) }
+        edge == { j \in Samp(m) : OnBandEdge(j) }
     IN  V(\A j \in sure \cup edge : RLt(SigA(j), t), \E j \in sure : RLt(t, SigA(j)))
-RelIII == LET vs == { RelIIIFor(t) : t \in Thr3 } IN IF Cardinality(vs) = 1 THEN CHOOSE v \in vs : TRUE ELSE 2
+RelIII == LET vs == { RelIIIFor(t, m) : t \in Thr3, m \in Readings } IN IF Cardinality(vs) = 1 THEN CHOOSE v \in vs : TRUE ELSE 2
 
 HalfA0 == Q(A0, 2)
-LowSure  == { j \in 1..NFq : RLt(RDiv(F0, R(4)), Fq(j)) /\ RLt(Fq(j), F0) }
-LowEdge  == { j \in 1..NFq : Fq(j) = RDiv(F0, R(4)) }
-HighSure == { j \in 1..NFq : RLt(F0, Fq(j)) /\ RLt(Fq(j), RMul(R(4), F0)) }
-HighEdge == { j \in 1..NFq : Fq(j) = RMul(R(4), F0) }
+LowSure(m)  == { j \in Samp(m) : RLt(RDiv(F0, R(4)), Fq(j)) /\ RLt(Fq(j), F0) }
+LowEdge(m)  == { j \in Samp(m) : Fq(j) = RDiv(F0, R(4)) }
+HighSure(m) == { j \in Samp(m) : RLt(F0, Fq(j)) /\ RLt(Fq(j), RMul(R(4), F0)) }
+HighEdge(m) == { j \in Samp(m) : Fq(j) = RMul(R(4), F0) }
 Below(j) == RLt(R(A[j]), HalfA0)
-ClaI   == V(\E j \in LowSure : Below(j), \A j \in LowSure \cup LowEdge : ~Below(j))
-ClaII  == V(\E j \in HighSure : Below(j), \A j \in HighSure \cup HighEdge : ~Below(j))
+MergeV(vs) == IF Cardinality(vs) = 1 THEN CHOOSE v \in vs : TRUE ELSE 2
+ClaI   == MergeV({ V(\E j \in LowSure(m) : Below(j), \A j \in LowSure(m) \cup LowEdge(m) : ~Below(j)) : m \in Readings })
+ClaII  == MergeV({ V(\E j \in HighSure(m) : Below(j), \A j \in HighSure(m) \cup HighEdge(m) : ~Below(j)) : m \in Readings })
 ClaIII == V(A0 > 2, A0 < 2)
 
 Within5(j) == RLt(RMul(Q(95, 100), F0), Fq(j)) /\ RLt(Fq(j), RMul(Q(105, 100), F0))
